@@ -14,9 +14,19 @@ VK_MAIN()
         int vb = 0, anygap = 0, minl = 1 << 20, maxl = 0;
         unsigned char res[VK_NS][VK_LMAX]; int len[VK_NS];
         for (int s = 0; s < VK_NS; s++) {
-                int l = vin.b[vb++]; VK_ASSUME(l <= VK_LMAX); len[s] = l; m->sequences[s]->len = l;
+                int l = vin.b[vb++]; VK_ASSUME(l <= VK_LMAX);
+#ifdef VK_NFIX
+                /* many-record instances: the first VK_NFIX records are a concrete backdrop (one residue, no gaps); only the
+                 * remaining records are symbolic - the classification must still look at EVERY record */
+                if (s < VK_NFIX) l = 1;
+#endif
+                len[s] = l; m->sequences[s]->len = l;
                 int tot = l;
-                for (int k = 0; k <= VK_LMAX; k++) { int g = vin.b[vb++]; VK_ASSUME(g <= 3); if (k > l) g = 0; m->sequences[s]->gaps[k] = g; tot += g; if (g) anygap = 1; }
+                for (int k = 0; k <= VK_LMAX; k++) { int g = vin.b[vb++]; VK_ASSUME(g <= 3); if (k > l) g = 0;
+#ifdef VK_NFIX
+                        if (s < VK_NFIX) g = 0;
+#endif
+ m->sequences[s]->gaps[k] = g; tot += g; if (g) anygap = 1; }
                 for (int k = 0; k < VK_LMAX; k++) { res[s][k] = vin.b[vb++]; m->sequences[s]->seq[k] = (char)res[s][k]; }
                 if (tot < minl) minl = tot; if (tot > maxl) maxl = tot;
         }
